@@ -51,6 +51,9 @@ type SmtpMsg struct {
 	// Signed (only together with a failing file source): the message is also S/MIME signed with a usable key. A
 	// failing producer must be reported whether or not the message goes through the signing pass first
 	Signed bool `json:"signed,omitempty"`
+	// FlakyAttach = n > 0: an attachment from a read-seeker whose FIRST pass fails after n bytes (a transient
+	// read error); every later pass delivers the whole content. Used with SmtpScenario.RetryOfFailed
+	FlakyAttach int `json:"flaky_attach,omitempty"`
 	// ToViaAdd: the To list is built with To(first) followed by one AddTo per further address
 	ToViaAdd bool `json:"to_via_add,omitempty"`
 }
@@ -123,6 +126,9 @@ type SmtpScenario struct {
 	// Warmup: before the run that is looked at, the SAME Client performs this one against another server
 	// incarnation (only Caps, Script and Msgs of it are used; not with TLS). Nothing of it may carry over.
 	Warmup *SmtpScenario `json:"warmup,omitempty"`
+	// RetryOfFailed (with Warmup): the warm-up run sends the SAME Msg values the main run sends afterwards - a
+	// first attempt (which may fail: flaky sources, a warm-up server that refuses) and the retry that is looked at
+	RetryOfFailed bool `json:"retry_of_failed,omitempty"`
 }
 
 type MsgResult struct {
@@ -153,6 +159,8 @@ type SmtpRun struct {
 	CheckErr  *mail.SendError
 	// APIProblems: the other accessors of a message's SendError disagree with the ones compared with the model
 	APIProblems []string
+	// WarmDelivered (RetryOfFailed): which messages the first attempt had already delivered
+	WarmDelivered []bool
 }
 
 func errTag(err error) string {
@@ -263,6 +271,14 @@ func buildSmtpMsg(i int, sm SmtpMsg) *mail.Msg {
 	if sm.Signed && sm.RenderFail {
 		_ = signWith(m, "rsa", 0)
 	}
+	if sm.FlakyAttach > 0 {
+		data := bytes.Repeat([]byte(fmt.Sprintf("flaky attachment of message %d; ", i)), 120)
+		src := &flakySeeker{data: data, failAt: sm.FlakyAttach % len(data)}
+		flakyMu.Lock()
+		flakySources[m] = src
+		flakyMu.Unlock()
+		m.AttachReadSeeker("flaky.bin", src)
+	}
 	if sm.AttachBytes > 0 {
 		data := make([]byte, sm.AttachBytes)
 		for k := range data {
@@ -272,6 +288,12 @@ func buildSmtpMsg(i int, sm SmtpMsg) *mail.Msg {
 	}
 	return m
 }
+
+// the flaky source of a message (FlakyAttach), to see after a first attempt whether it has had its failure
+var (
+	flakyMu      sync.Mutex
+	flakySources = map[*mail.Msg]*flakySeeker{}
+)
 
 // RunScenario drives Client.DialAndSendWithContext against the scripted server
 func RunScenario(sc *SmtpScenario) (run *SmtpRun, msgs []*mail.Msg) {
@@ -339,12 +361,28 @@ func RunScenario(sc *SmtpScenario) (run *SmtpRun, msgs []*mail.Msg) {
 	for _, f := range later {
 		f(client)
 	}
+	var prebuilt []*mail.Msg
 	if sc.Warmup != nil && sc.TLS == "" {
 		mainSrv := srv
 		srv = NewRefServer(sc.Warmup.Caps, sc.Warmup.Script)
 		var wmsgs []*mail.Msg
 		for i, sm := range sc.Warmup.Msgs {
 			wmsgs = append(wmsgs, buildSmtpMsg(100+i, sm))
+		}
+		if sc.RetryOfFailed {
+			// the first attempt delivers nothing: the server answers every end-of-data with a temporary refusal (the
+			// classic reason for a retry); what the retry delivers is delivered by the retry
+			srv.Dynamic = func(pos int, verb, line string) (SrvAction, bool) {
+				if verb == "eod" {
+					return SrvAction{Kind: "reply", Code: 451, Text: "4.3.0 try again later"}, true
+				}
+				return SrvAction{}, false
+			}
+			wmsgs = nil
+			for i, sm := range sc.Msgs {
+				prebuilt = append(prebuilt, buildSmtpMsg(i, sm))
+			}
+			wmsgs = prebuilt
 		}
 		watchdog(30*time.Second, func() {
 			defer func() { _ = recover() }()
@@ -355,6 +393,19 @@ func RunScenario(sc *SmtpScenario) (run *SmtpRun, msgs []*mail.Msg) {
 		}
 		conn = nil
 		srv = mainSrv
+		// a flaky source the first attempt never reached (an earlier message of the batch had broken the connection)
+		// has its failure still before it: in the run that is looked at, that message is one whose rendering fails
+		flakyMu.Lock()
+		for i, m := range prebuilt {
+			if src := flakySources[m]; src != nil {
+				if !src.tripped {
+					sc.Msgs[i].RenderFail = true
+				}
+				delete(flakySources, m)
+			}
+			run.WarmDelivered = append(run.WarmDelivered, m.IsDelivered())
+		}
+		flakyMu.Unlock()
 	}
 	// the caller's context: none, or one with a deadline of its own far beyond the configured timeout (the
 	// configured timeout still bounds every network operation)
@@ -367,7 +418,12 @@ func RunScenario(sc *SmtpScenario) (run *SmtpRun, msgs []*mail.Msg) {
 	ctx, cancel := context.WithCancel(base)
 	defer cancel()
 	for i, sm := range sc.Msgs {
-		m := buildSmtpMsg(i, sm)
+		var m *mail.Msg
+		if prebuilt != nil {
+			m = prebuilt[i]
+		} else {
+			m = buildSmtpMsg(i, sm)
+		}
 		if sc.CtxCancelInMsg == i+1 && !sm.RenderFail {
 			var buf bytes.Buffer
 			if parts := m.GetParts(); len(parts) == 1 {
@@ -417,38 +473,54 @@ func RunScenario(sc *SmtpScenario) (run *SmtpRun, msgs []*mail.Msg) {
 				run.Panic = r
 			}
 		}()
+		// where each public call begins, for the oracles that look at one call at a time
+		mark := func(name string) {
+			srv.mu.Lock()
+			srv.Events = append(srv.Events, Event{Kind: "api", Line: name})
+			srv.mu.Unlock()
+		}
 		switch how {
 		case 1:
+			mark("DialAndSend")
 			run.Err = client.DialAndSend(msgs...)
 		case 2:
 			// the shared connection of the Client: dial, Send, Close (the wrapping of DialAndSendWithContext mirrored)
+			mark("DialWithContext")
 			if err := client.DialWithContext(ctx); err != nil {
 				run.Err = fmt.Errorf("dial failed: %w", err)
 				return
 			}
+			mark("Send")
 			if err := client.Send(msgs...); err != nil {
+				mark("Close")
 				_ = client.Close()
 				run.Err = fmt.Errorf("send failed: %w", err)
 				return
 			}
+			mark("Close")
 			if err := client.Close(); err != nil {
 				run.Err = fmt.Errorf("failed to close connection: %w", err)
 			}
 		case 3:
+			mark("DialToSMTPClientWithContext")
 			sc2, err := client.DialToSMTPClientWithContext(ctx)
 			if err != nil {
 				run.Err = fmt.Errorf("dial failed: %w", err)
 				return
 			}
+			mark("SendWithSMTPClient")
 			if err := client.SendWithSMTPClient(sc2, msgs...); err != nil {
+				mark("CloseWithSMTPClient")
 				_ = client.CloseWithSMTPClient(sc2)
 				run.Err = fmt.Errorf("send failed: %w", err)
 				return
 			}
+			mark("CloseWithSMTPClient")
 			if err := client.CloseWithSMTPClient(sc2); err != nil {
 				run.Err = fmt.Errorf("failed to close connection: %w", err)
 			}
 		default:
+			mark("DialAndSendWithContext")
 			run.Err = client.DialAndSendWithContext(ctx, msgs...)
 		}
 	}) {
